@@ -211,7 +211,7 @@ func twinCompare(pfx string, m *dyn.Model, live *txn.Engine, pre *ref.DB, ops []
 	if a.Hung || b.Hung {
 		return nil
 	}
-	if a.Failed != b.Failed || (a.Failed && (a.FailIndex != b.FailIndex || errClassOf(a.FailErr) != errClassOf(b.FailErr))) {
+	if a.Failed != b.Failed || (a.Failed && (a.FailIndex != b.FailIndex || failClass(a) != failClass(b))) {
 		return []finding{{fmt.Sprintf("%s/twin-diverges/%s-vs-%s", pfx, replyClass(a), replyClass(b)),
 			fmt.Sprintf("the same transaction on two databases holding the same rows is answered differently: live: failed=%v at %d %q %q; fresh twin: failed=%v at %d %q %q",
 				a.Failed, a.FailIndex, a.FailErr, a.FailWhy, b.Failed, b.FailIndex, b.FailErr, b.FailWhy)}}
@@ -223,7 +223,16 @@ func replyClass(r *txn.Reply) string {
 	if !r.Failed {
 		return "accepted"
 	}
-	return "rejected(" + errClassOf(r.FailErr) + ")"
+	return "rejected(" + failClass(r) + ")"
+}
+
+// failClass normalises the error of a failed reply: which of several failing
+// rows or columns of one operation is reported depends on map iteration order.
+func failClass(r *txn.Reply) string {
+	if strings.Contains(r.FailErr+" "+r.FailWhy, "not mutable") {
+		return "immutable column"
+	}
+	return errClassOf(r.FailErr)
 }
 
 func c04Judge(m *dyn.Model) func(pre *ref.DB, ops []ref.Op) []finding {
